@@ -28,6 +28,7 @@ import (
 	"testing"
 	"time"
 
+	"github.com/bluenviron/mediamtx/internal/api"
 	"github.com/bluenviron/mediamtx/internal/auth"
 	"github.com/bluenviron/mediamtx/internal/conf"
 	"github.com/bluenviron/mediamtx/internal/conf/jsonwrapper"
@@ -667,6 +668,7 @@ func (w *w6World) Run(t *testing.T, sc *simrt.Scenario, cfg simrt.Config) simrt.
 		os.WriteFile(confPath, []byte(w6Render(b.Globals, b.Paths)), 0o644)
 		fsnotify.SimReset()
 		comprec.Reset()
+		api.ZZReset()
 		universe := 1
 		uni := map[*comprec.Info]int{}
 		failKind := ""
@@ -964,7 +966,24 @@ func (w *w6World) Run(t *testing.T, sc *simrt.Scenario, cfg simrt.Config) simrt.
 					simrt.Rec("op.ret", st.Kind, st.Name, int64(bi), int64(si), okN)
 				}()
 			}
-			wg.Wait()
+			burstDone := make(chan struct{})
+			go func() {
+				wg.Wait()
+				close(burstDone)
+			}()
+			select {
+			case <-burstDone:
+			case <-time.After(60 * time.Second):
+				// a request was never answered: the server's routine and the handler of an API
+				// request wait for each other (the routine closes the API server, which waits for
+				// its handlers; the handler waits for the routine to take its request)
+				pending := "no edit is pending"
+				if p.nextConf.Load() != nil {
+					pending = "an edit that was acknowledged is still waiting to be applied"
+				}
+				simrt.Violate("C13", "reload-never-completes", "change %d: a minute after the requests of this burst were issued one of them is still unanswered and the server applies nothing any more (%s)", bi+1, pending)
+				return
+			}
 			// the burst is over: leave ample time for the watcher's delay and the reload
 			time.Sleep(5 * time.Second)
 			failKind = ""
@@ -1107,6 +1126,15 @@ func w6Presence(b bool) string {
 // w6API issues an API call; when the server has exited (a component failed to start) the
 // call would never be answered, so the client gives up then.
 func w6API(p *Core, call func() error) error {
+	// when the server runs its API component the request goes through it: the stand-in
+	// tracks it like the real handler chain does, and its Close waits for it
+	if a := p.api; a != nil {
+		leave, ok := a.ZZEnter()
+		if !ok {
+			return fmt.Errorf("connection refused")
+		}
+		defer leave()
+	}
 	// the API methods of Core give up by themselves when the server terminates
 	return call()
 }
